@@ -59,7 +59,7 @@ def gen_circuit(rng, exhaustive=None):
     pend_bb = []
     for b in range(n_bb):
         bn, ins, outs = rng.choice(BBDEFS)
-        inst = rng.choice([f"u{b}", f"ff{b}", f"g_{b}", f"i_{b}"])
+        inst = rng.choice([f"u{b}", f"ff{b}", f"g_{b}", f"i_{b}", f"\\u[{b}]", f"\\i-{b}"])      # escaped instance names: finding C03-F2
         bbs.append([inst, bn, ins, outs])
         for p in outs:
             nodes.append([f"{inst}.{p}", "bb_output", False, []])
@@ -108,7 +108,8 @@ def generate(rng, tier):
     for t in lib.MULTI:
         for ar in (1, 2, 3, 4):
             for beh in (False, True):
-                if tier == "thorough" or rng.random() < 0.35:
+                # one-operand inverting gates in assign style are always present (the inversion must survive without an operator)
+                if tier == "thorough" or rng.random() < 0.35 or (ar == 1 and beh and t in ("nand", "nor", "xnor")):
                     out.append({"circuit": gen_circuit(rng, (t, ar)), "behavioral": beh, "via": "grid"})
     for _ in range(n):
         out.append({"circuit": gen_circuit(rng), "behavioral": rng.random() < 0.5, "via": "random"})
@@ -240,6 +241,8 @@ def classify(case, obs):
             tags.append("bb-output-unconnected")
     if d["bbs"]:
         tags.append("blackbox")
+    if any(b[0].startswith("\\") for b in d["bbs"]):
+        tags.append("escaped-instance")
     return sorted(set(tags))
 
 
